@@ -93,10 +93,19 @@ func judge(c Case, w *vkit.W) {
 			w.Fail(c, "error-not-typed", fmt.Sprintf("%s(%q): %T %v is not a *roman.NumberFormatError", path, text, err, err))
 		}
 	}
-	n, err := roman.DefaultParser(text, rule)
-	parse("DefaultParser[string]", n, err)
-	n, err = roman.DefaultParser(w.Scratch(text), rule) // a reused caller buffer
-	parse("DefaultParser[[]byte]", n, err)
+	var n roman.Number
+	var err error
+	if w.Flip() { // the order of the two instantiations alternates
+		n, err = roman.DefaultParser(text, rule)
+		parse("DefaultParser[string]", n, err)
+		n, err = roman.DefaultParser(w.Scratch(text), rule) // a reused caller buffer
+		parse("DefaultParser[[]byte]", n, err)
+	} else {
+		n, err = roman.DefaultParser(w.Scratch(text), rule)
+		parse("DefaultParser[[]byte]", n, err)
+		n, err = roman.DefaultParser(text, rule)
+		parse("DefaultParser[string]", n, err)
+	}
 	valid("Valid[string]", roman.Valid(text, rule))
 	valid("Valid[[]byte]", roman.Valid(w.Scratch(text), rule))
 	if ok || len(text) < 3 {
